@@ -27,6 +27,22 @@ M = [
  ("M21-zero-width-late", "src/placement.rs", "        if width == 0 {\n            return Err(BitmapConversionError::ZeroWidth);\n        }\n        if bits.len() % width != 0 {", "        if width == 0 && bits.is_empty() {\n            return Err(BitmapConversionError::ZeroWidth);\n        }\n        if bits.len() % width != 0 {", {"C08": "DOM-BITMAP", "C05": "DOM-BITMAP"}),
  ("M22-dmre-wrap", "src/placement.rs", "        if i >= h {\n            i -= h;\n        }", "        if i > h {\n            i -= h;\n        }", {"C07": "TAB-PLC"}),
  ("M23-empty-list-err", "src/encodation/mod.rs", "        if self.symbol_list.is_empty() {\n            return Err(DataEncodingError::SymbolListEmpty);\n        }", "        if self.symbol_list.is_empty() && self.data.is_empty() {\n            return Err(DataEncodingError::SymbolListEmpty);\n        }", {"C11": "DOM-ERRCLS"}),
+ ("M25-dec-macro-head-swap", "src/decodation/mod.rs", "        Some(MACRO05) => {\n            out.extend_from_slice(MACRO05_HEAD);", "        Some(MACRO05) => {\n            out.extend_from_slice(MACRO06_HEAD);", {"C16": "DEC-MACRO"}),
+ ("M26-dec-macro-trailer-always", "src/decodation/mod.rs", "    if add_macro_trail {\n        if !ecis.is_empty() {", "    if add_macro_trail || raw {\n        if !ecis.is_empty() {", {"C16": "DEC-MACRO"}),
+ ("M27-generator-off-by-one", "src/errorcode/mod.rs", ".find(|p| p.len() - 1 == len)", ".find(|p| p.len() == len)", {"C06": "TAB-GEN"}),
+ ("M28-ord-diagonal-first", "src/symbol_size.rs", "(obj.num_data_codewords(), bs.width.pow(2) + bs.height.pow(2))", "(bs.width.pow(2) + bs.height.pow(2), obj.num_data_codewords())", {"C12": "ORD", "C10": "ORD"}),
+ ("M29-macro-after-eci", "src/data.rs", "    if use_macros {\n        encoder.use_macro_if_possible();\n    }\n    if let Some(eci) = eci {\n        encoder.write_eci(eci);\n    }", "    if let Some(eci) = eci {\n        encoder.write_eci(eci);\n    }\n    if use_macros {\n        encoder.use_macro_if_possible();\n    }", {"C16": "DOM-MACRO"}),
+ ("M30-eci27-no-ascii-check", "src/decodation/eci.rs", "            if bytes.is_ascii() {", "            if bytes.is_ascii() || bytes.len() > 3 {", {"C14": "TAB-DISPATCH"}),
+ ("M31-pee-last-only", "src/errorcode/decoding/mod.rs", "errors = errors || (*o != GF(0));", "errors = *o != GF(0);", {"C09": "SYNZERO", "C03": "SYNZERO"}),
+ ("M32-setter-drops-fnc1", "src/lib.rs", "        Self { use_macros, ..self }", "        Self { use_macros, fnc1_start: false, ..self }", {"C16": "FNC1"}),
+ ("M33-switch-consume-any", "src/encodation/mod.rs", "if chars_left > 0 && chars_left == self.planned_switches[0].0 {", "if chars_left > 0 && chars_left <= self.planned_switches[0].0 + 1 {", {"C18": "PROV-PLAN"}),
+ ("M34-b256-threshold", "src/encodation/base256.rs", "        if data_count <= 249 {", "        if data_count <= 250 {", {"C02": "TAB-B256"}),
+ ("M35-clock-phase", "src/placement.rs", "        for i in (1..h).step_by(2) {\n            // draw right alignment", "        for i in (0..h).step_by(2) {\n            // draw right alignment", {"C08": "RENDER-GEOM"}),
+ ("M36-padding-cell", "src/placement.rs", "*self.bit_mut(self.height - 1, self.width - 1) = M::HIGH;", "*self.bit_mut(self.height - 1, self.width - 2) = M::HIGH;", {"C07": "TAB-PLC"}),
+ ("M37-bit-order", "src/placement.rs", "for bit in bits.into_iter().rev() {", "for bit in bits.into_iter() {", {"C07": "TAB-PLC"}),
+ ("M38-pad-randomize", "src/encodation/mod.rs", "(((149 * pos) % 253) + 1) as u16", "(((149 * pos) % 254) + 1) as u16", {"C02": "PAD-PATH"}),
+ ("M39-write-eci-always", "src/data.rs", "    if let Some(eci) = eci {\n        encoder.write_eci(eci);\n    }", "    encoder.write_eci(eci.unwrap_or(3));", {"C14": "STR-BRANCH"}),
+ ("M40-edifact-len-le3", "src/decodation/mod.rs", "        if data.len() <= 2 {", "        if data.len() <= 3 {", {"C04": "DEC-THRESH"}),
  ("M24-switch-insert", "src/encodation/planner/generic.rs", "                    switches.push((rest_len, EncodationType::$enum));", "                    switches.insert(0, (rest_len, EncodationType::$enum));", {"C18": "PLAN-MONO"}),
 ]
 def main():
